@@ -91,8 +91,13 @@ def closure(chk, F):
             continue
         names = {it["name"] for it in imp["items"]}
         extra = sorted(names - SPECIFIED)
-        chk.ob("closure|%s" % ty, not extra, "every item implemented for %s has a specification that was discharged" % ty,
-               F.loc(imp["l"]), found="items outside the specified set: %s" % extra, nontrivial=False)
+        if extra:
+            # a NEW interface item: nothing is known against it, but programs that call it are outside what this check establishes
+            chk.undecide("closure|%s" % ty, "unsupported: interface items without a specification (programs calling them are not covered): %s" % extra,
+                         F.loc(imp["l"]))
+        else:
+            chk.ob("closure|%s" % ty, True, "every item implemented for %s has a specification that was discharged" % ty,
+                   F.loc(imp["l"]), found="all %d items specified" % len(names), nontrivial=False)
         chk.count("DualNum impl items", len(names))
 
 
